@@ -63,14 +63,14 @@ PROPS = {
                 cone=["Model/Objects.v", "Proofs/ObjectsP.v", "Model/Options.v", "Proofs/OptionsP.v"] + ENGINE_CONE,
                 rule="a generated probe execution (schema, data, WithCtxValue / WithIssueFormatter options) is run on freshly cleared pools, after a random history of 1-5 other executions whose results are kept or handed back through CollectMap / CollectList / SanitizeMapAndCollect / SanitizeListAndCollect (GC off, goroutine pinned, so the pools really recycle), and on pools handing out dirty objects (every field junk, CanCatch/Exit set, context values, stale path segments); every issue field, the destination and ctx.Get inside every callback are compared; issue objects of one result must be pairwise distinct; the probe is also compared with the Coq engine; distinct = distinct (schema shape, issue codes, mode)",
                 families=[dict(name="history", family="history", profile="C07", quick=900, thorough=15000,
-                               tags=["isolation", "isolation_dirty", "issue_aliased", "panic", "ctx", "nil", "issues", "msg", "dest"])]),
+                               tags=["isolation", "isolation_dirty", "issue_aliased", "held_result", "panic", "ctx", "nil", "issues", "msg", "dest"])]),
     "C08": dict(theorems=["C08_pooled_objects_have_one_holder", "C08_race_free_partial", "C08_schema_is_read_only", "C08_each_call_like_running_alone"],
                 cone=["Model/Threads.v", "Proofs/ThreadsP.v", "Model/Objects.v", "Proofs/ObjectsP.v"] + ENGINE_CONE,
                 level_text="PARTIAL proof: Coq theorems for the ownership logic (pooled objects have one holder under every interleaving; disciplined events never race; schema and input are never written; each call's result is a function of its own arguments); the Go memory model, sync.Pool's atomicity and the runtime are trusted; a -race stress on shared schema objects validates the footprint model on every run",
                 level_note="trusted and NOT modelled: the Go memory model, atomicity of sync.Pool Get/Put, map iteration and reflect internals of the runtime; trusted: Coq kernel, harness",
                 rule="generated schema objects shared by 16 goroutines, each running Parse / Validate / Collect with its own data, destination (two destination struct layouts per schema) and options under the Go race detector; every result is compared with the result of the same call running alone; distinct = distinct shared schema shapes",
                 families=[dict(name="race", family="race", quick=0, thorough=0, tags=["data_race", "concurrent_result"]),
-                          dict(name="history", family="history", profile="C07", quick=400, thorough=5000, tags=["isolation", "isolation_dirty", "issue_aliased", "panic", "ctx", "nil", "issues", "msg", "dest"])]),
+                          dict(name="history", family="history", profile="C07", quick=400, thorough=5000, tags=["isolation", "isolation_dirty", "issue_aliased", "held_result", "panic", "ctx", "nil", "issues", "msg", "dest"])]),
     "C09": dict(theorems=["C09_struct_order_independent_partial", "C09_fields_order_independent_partial", "C09_deep_order_independent_partial", "C09_deep_premise_is_satisfiable", "C09_input_key_order_irrelevant", "C09_error_state_irrelevant_without_transforms", "C09_engine_computes_semantics", "C09_message_independent_of_parameter_order", "C09_one_pass_is_simultaneous_substitution", "C09_legacy_message_depends_on_order_refuted", "C09_repair_keeps_brace_free_messages"], cone=ENGINE_CONE + ["Proofs/Indep.v", "Proofs/DeepOrder.v", "Model/Fmt.v", "Gen/Tables.v", "Proofs/FmtOrderP.v"], rule=ENGINE_RULE,
                 families=[eng("engine", "C09", 1000, 16000, ["repeat", "repeat_ptgate", "panic", "nil", "issues", "dest"]),
                           # one schema object at two places of a larger schema whose destinations lay the fields out differently: each place as an independent copy, on every run
